@@ -91,19 +91,34 @@ FORBIDDEN = [r"\bsorry\b", r"\badmit\b", r"^\s*axiom\s", r"\bnative_decide\b", r
              r"\bimplemented_by\b", r"\bunsafe\s", r"maxHeartbeats\s+0\b"]
 
 
-def grep_forbidden():
+def import_closure(modules):
+    """files (relative to lean/) of the project-local import closure of the given modules"""
+    seen, todo = set(), list(modules)
+    while todo:
+        m = todo.pop()
+        if m in seen:
+            continue
+        path = os.path.join(LEAN, *m.split(".")) + ".lean"
+        if not os.path.exists(path):
+            continue
+        seen.add(m)
+        for line in open(path):
+            mm = re.match(r"\s*import\s+(\S+)", line)
+            if mm and (mm.group(1).startswith("StunVerif") or mm.group(1).startswith("Driver")):
+                todo.append(mm.group(1))
+    return sorted(seen)
+
+
+def grep_forbidden(modules):
+    """forbidden tokens in the import closure of the property's modules and of the driver"""
     hits = []
-    for root in (os.path.join(LEAN, "StunVerif"), os.path.join(LEAN, "Driver")):
-        for d, _, fs in os.walk(root):
-            for f in fs:
-                if not f.endswith(".lean"):
-                    continue
-                p = os.path.join(d, f)
-                txt = strip_lean_comments(open(p).read())
-                for ln, line in enumerate(txt.splitlines(), 1):
-                    for pat in FORBIDDEN:
-                        if re.search(pat, line):
-                            hits.append(f"{os.path.relpath(p, LEAN)}:{ln}: {line.strip()[:100]}")
+    for m in import_closure(list(modules) + ["Driver.Main"]):
+        p = os.path.join(LEAN, *m.split(".")) + ".lean"
+        txt = strip_lean_comments(open(p).read())
+        for ln, line in enumerate(txt.splitlines(), 1):
+            for pat in FORBIDDEN:
+                if re.search(pat, line):
+                    hits.append(f"{os.path.relpath(p, LEAN)}:{ln}: {line.strip()[:100]}")
     return hits
 
 
